@@ -211,6 +211,7 @@ def main(tier, seed):
         run.broken.append(("harness-exception", traceback.format_exc()[-1500:]))
     def search(r):
         # something no longer checks: look harder where the estimator is most fragile (hard prior boundary, RWM, more seeds)
+        n_before = len(r.failures)      # listed findings may already be among the failures
         R = 192
         cfg = dict(clustering=False, sample="rwm")
         res = ens.run_ensemble("edge", cfg, R, 64, 5600)
@@ -221,7 +222,7 @@ def main(tier, seed):
         if abs(e0) > 4 * se0 + 0.01:
             r.fail("hard-boundary-bias-in-posterior", f"posterior abutting a hard prior boundary: mean of the abutting coordinate is off by {e0:+.3f} "
                    f"(se {se0:.3f}) over {len(ok)} seeds", target="edge", cfg=cfg, runs=R, n_particles=64, seeds="5600..")
-        if r.failures:
+        if len(r.failures) > n_before:
             return
         # ... and where the resampling scheme matters most: systematic resampling into a kernel that does not re-equilibrate quickly
         for npart2 in (64, 128):
